@@ -1397,6 +1397,54 @@ fn obs_writes(bufs: &[(usize, u8)], f: impl Fn(&mut [u8]) -> Result<usize, RtcpW
     L(l)
 }
 
+fn helper_hdr<const PT: u8, const MIN: usize>(padding: u8, count: u8, buf: &mut [u8]) -> usize {
+    writer::write_header_unchecked::<Custom<PT, MIN>>(padding, count, buf)
+}
+
+/// direct calls of the public writer helpers (utils::writer) on a caller-supplied buffer of any length
+fn run_helper(t: &mut Toks) -> Result<Kvs, String> {
+    let one_buf = |t: &mut Toks| -> Result<Vec<u8>, String> {
+        let b = parse_bufs(t.next()?, 0)?;
+        if b.len() != 1 {
+            return Err("helper: one buffer".to_string());
+        }
+        Ok(vec![b[0].1; b[0].0])
+    };
+    let w = match t.next()? {
+        "pad" => {
+            let p: u8 = t.num()?;
+            let mut buf = one_buf(t)?;
+            let r = guard(|| Ok(writer::write_padding_unchecked(p, &mut buf)));
+            let bytes = if r.is_ok() { buf } else { vec![] };
+            L(vec![wres(r), B(bytes)])
+        }
+        "hdr" => {
+            let pt: u8 = t.num()?;
+            let p: u8 = t.num()?;
+            let c: u8 = t.num()?;
+            let mut buf = one_buf(t)?;
+            let r = guard(|| with_custom!(pt, 4usize, helper_hdr, p, c, &mut buf));
+            let r = match r {
+                Ok(Some(n)) => Ok(Ok(n)),
+                Ok(None) => return Err("helper: type not in the third-party family".to_string()),
+                Err(()) => Err(()),
+            };
+            let bytes = if r.is_ok() { buf } else { vec![] };
+            L(vec![wres(r), B(bytes)])
+        }
+        "chk" => {
+            let p: u8 = t.num()?;
+            match guard(|| writer::check_padding(p)) {
+                Ok(Ok(())) => ok(S("unit")),
+                Ok(Err(e)) => err(werr(&e)),
+                Err(()) => S("PANIC"),
+            }
+        }
+        _ => return Err("bad helper".to_string()),
+    };
+    Ok(vec![("w".to_string(), w)])
+}
+
 fn run_build(bufspec: &str, m: &Member) -> Result<Kvs, String> {
     let w = boxed_writer(m)?;
     let size = guard(|| w.calc());
@@ -1503,6 +1551,7 @@ fn run_line(line: &str) -> Option<String> {
             run_item(bufs, &c)
         }
         "hist" => hist::run_hist(&mut t),
+        "helper" => run_helper(&mut t),
         _ => Err("unknown-kind".to_string()),
     })();
     let mut out = String::new();
